@@ -162,7 +162,8 @@ def _pad_face_connections(
     # Iterate over each face and pad accordingly
     for i in range(n_facedim):
         target_da = da_prepadded.isel({facedim: i})
-        connection_single = connections[facedim][i]
+        # a face that the table does not list has no links: all its edges get the basic padding
+        connection_single = connections[facedim].get(i, {})
         for axname in pad_axes:
             # get any connections relevant to the current axis, default to None.
             (left_connection, right_connection) = connection_single.get(
